@@ -6,10 +6,15 @@ from vlib import basic, translated
 LEVEL = 'proof'
 RULE = ('operand pairs from a boundary set (powers of two +-1, byte-carry 255/256, sign boundaries) crossed with '
         'itself, plus PRNG pairs; each (operator, a, b) is one case; non-trivial = not both operands zero; '
-        'FOR loops with start/stop/step near the limits run through the real interpreter')
+        'FOR loops with start/stop/step near the limits run through the real interpreter; FOR loops whose start / '
+        'limit / step are literals, scalars or array elements (of the counter\'s type and of the other numeric types) '
+        'that the loop body or a GOSUB from it assigns to while the loop runs')
 EXPLANATION = ('theorems: iadd/isub/ineg/iabs/idiv/imod/bitwise/gt/eq specs over all 16-bit patterns '
                '(PcbV.Props.C02); correspondence: Integer methods, values.* operators and Session-level '
                'PRINT / FOR compared with the Lean model; oracle: Python int two\'s-complement arithmetic'
+               '; the FOR record holds the operand values of the moment FOR was executed (for_operands_captured: '
+               'the run is a function of those three values, so later assignments to the operand variables '
+               'cannot show)'
                '; source tie: the arithmetic of Integer.idiv_int / imod behind the zero test is translated '
                'mechanically from the current Python AST into PcbV.Gen.Translated.idivCore / imodCore '
                '(gen/py2lean.py), proved equal to the model (translated_idiv_eq, translated_imod_eq) and compared '
@@ -174,7 +179,198 @@ def check_cases(ctx, impl, cases):
                      'expected %s, implementation returned %s' % (exp, out))
 
 
-def basic_level(ctx, n_expr, n_for):
+class _Hang(BaseException):
+    """raised by the CPU-time guard around one interpreter run"""
+
+
+def run_guarded(s, text, seconds=20):
+    """session.execute under a CPU-time limit (ITIMER_VIRTUAL; the wall-clock alarm belongs to vlib.main):
+    a loop that never ends is reported by the caller, it must not stall the check."""
+    import signal
+
+    def on_timer(signum, frame):
+        raise _Hang()
+    old = signal.signal(signal.SIGVTALRM, on_timer)
+    signal.setitimer(signal.ITIMER_VIRTUAL, seconds)
+    try:
+        return s.execute(text)
+    finally:
+        signal.setitimer(signal.ITIMER_VIRTUAL, 0)
+        signal.signal(signal.SIGVTALRM, old)
+
+
+def run_for_program(s, prog):
+    """Enter and RUN a FOR test program; -> ('ok <counters seen> <status>', status)."""
+    try:
+        s.execute(b'NEW')
+        for l in prog.split(b'\r'):
+            if l:
+                s.execute(l)
+        out = run_guarded(s, b'RUN')
+    except _Hang:
+        return 'hang', 'hang'
+    toks = out.replace(b'\xff', b' ').split()
+    vals, status = [], None
+    for i, t in enumerate(toks):
+        if t == b'fuel':
+            status = 'fuel'
+            break
+        if t == b'end':
+            status = 'end %d' % (int(toks[i + 1]) & 0xffff)
+            break
+        if t == b'Overflow':
+            status = 'err 6'
+            break
+        try:
+            vals.append(int(t) & 0xffff)
+        except ValueError:
+            status = 'unparsed %r' % out
+            break
+    return 'ok %s %s' % (','.join(map(str, vals)) or '-', status), status
+
+
+def for_expected(start, stop, step, fuel):
+    """oracle: start, limit and step are the values the operands had when FOR was executed; exact addition,
+    Overflow exactly when the sum leaves the range"""
+    exp_vals, c = [], start
+    empty = (start > stop) if step >= 0 else (stop > start)
+    exp_status = None
+    first = True
+    while True:
+        if not (empty and first):
+            if len(exp_vals) >= fuel:
+                exp_status = 'fuel'
+                break
+            exp_vals.append(c & 0xffff)
+            if len(exp_vals) >= fuel:
+                exp_status = 'fuel'
+                break
+        first = False
+        c += step
+        if not -32768 <= c <= 32767:
+            exp_status = 'err 6'
+            break
+        if (c > stop) if step > 0 else (stop > c):
+            exp_status = 'end %d' % (c & 0xffff)
+            break
+    return 'ok %s %s' % (','.join(map(str, exp_vals)) or '-', exp_status)
+
+
+# operand forms of FOR I%=<start> TO <limit> STEP <step>: a literal, a scalar / array element of the counter's own
+# type (to_type hands those through unconverted), scalars / elements of the other numeric types (converted)
+FOR_FORMS = ['lit', 'int', 'int', 'int', 'arr', 'arr', 'arr', 'sng', 'dbl', 'sarr']
+FOR_NAMES = {
+    'int': (b'P%', b'Q%', b'S%'), 'arr': (b'A%(1)', b'A%(2)', b'A%(3)'), 'sng': (b'P!', b'Q!', b'S!'),
+    'dbl': (b'P#', b'Q#', b'S#'), 'sarr': (b'B!(1)', b'B!(0)', b'B!(5)'),
+}
+FOR_FUEL = 12
+
+
+def for_operand_program(rng, bv):
+    """One FOR loop whose operands are variables that the loop body assigns to while the loop runs.
+    -> (program, (start, stop, step), description, model request)"""
+    kind = rng.random()
+    if kind < 0.5:
+        start = rng.randint(-20, 20)
+        step = rng.choice([1, 1, 2, 3, 5, 7, -1, -2, -3, -7, 0])
+        stop = start + step * rng.randint(-1, 12) + rng.randint(-1, 1)
+    elif kind < 0.8:
+        start = rng.choice([32767, 32760, 32000, 30000, -32768, -32760, -32000, -30000])
+        step = rng.choice([1, 2, 7, 100, 255, 256, 1000, -1, -2, -7, -100, -255, -256, -1000])
+        stop = rng.choice([32767, 32766, 32700, -32768, -32767, -32700, start, 0])
+    else:
+        start, stop, step = (s16(rng.choice(bv)) for _ in range(3))
+    vals = [start, stop, step]
+    forms = [rng.choice(FOR_FORMS) for _ in range(3)]
+    if step == 1 and rng.random() < 0.2:
+        forms[2] = 'none'
+    if all(f in ('lit', 'none') for f in forms):
+        # at least one operand is a variable of the counter's type, mostly the step
+        forms[rng.choice([2, 2, 0, 1])] = rng.choice(['int', 'arr'])
+    texts, setup, change = [], [], []
+    operands, env = [], []
+    for role in range(3):
+        form, v = forms[role], vals[role]
+        if form in ('lit', 'none'):
+            texts.append(b'%d' % v)
+            operands.append('l%d' % (v & 0xffff))
+            continue
+        name = FOR_NAMES[form][role]
+        texts.append(name)
+        setup.append(b'%s=%d' % (name, v))
+        slot = len(env)
+        operands.append('v%d' % slot)
+        env.append(v & 0xffff)
+        d = rng.choice([1, -1, 3, -5])
+        if rng.random() < 0.3 and abs(v) + FOR_FUEL * abs(d) <= 32767:
+            # a different value on every pass
+            change.append((b'%s=%s%+d' % (name, name, d), '%d+%d' % (slot, d & 0xffff)))
+        else:
+            new = rng.choice([0, -v, v + 1, v - 1, 2 * v, 32767, -32768, 1, -1, s16(rng.choice(bv)), rng.randint(-40, 40)])
+            if new == v or not -32768 <= new <= 32767:
+                new = 0 if v else 9
+            change.append((b'%s=%d' % (name, new), '%d=%d' % (slot, new & 0xffff)))
+    rng.shuffle(change)
+    where = rng.choice(['before', 'after', 'gosub', 'gosub-before', 'split'])
+    assigns = ','.join(c[1] for c in change)
+    change = b':'.join(c[0] for c in change)
+    first_pass = 1
+    head = b'FOR I%%=%s TO %s' % (texts[0], texts[1]) + (b'' if forms[2] == 'none' else b' STEP ' + texts[2])
+    show = b'PRINT I%%;:K%%=K%%+1:IF K%%>=%d THEN PRINT " fuel":END' % FOR_FUEL
+    sub = b''
+    if where == 'before':
+        body = change + b'\r30 ' + show
+    elif where == 'after':
+        body = show + b'\r30 ' + change
+    elif where == 'gosub':
+        body, sub = show + b'\r30 GOSUB 100', b'100 ' + change + b':RETURN\r'
+    elif where == 'gosub-before':
+        body, sub = b'GOSUB 100\r30 ' + show, b'100 ' + change + b':RETURN\r'
+    else:
+        # the assignments happen from pass first_pass on (K% counts the completed passes)
+        first_pass = rng.randint(2, 4)
+        body, sub = b'IF K%%>=%d THEN GOSUB 100\r30 ' % (first_pass - 1) + show, b'100 ' + change + b':RETURN\r'
+    prog = (b'10 DIM A%(5),B!(5):K%=0:' + b':'.join(setup) + b'\r20 ' + head + b'\r25 ' + body +
+            b'\r40 NEXT\r50 PRINT "end ";I%:END\r' + sub)
+    request = 'forenv %d %d %s %s %s' % (FOR_FUEL, first_pass, ' '.join(operands), ','.join(map(str, env)) or '-',
+                                         assigns or '-')
+    return prog, (start, stop, step), '%s:%s' % (','.join(forms), where), request
+
+
+def for_operands(ctx, s, n):
+    """FOR loops with variable / array-element operands that are reassigned inside the loop (body or GOSUB):
+    start, limit and step are fixed when FOR is executed."""
+    rng = ctx.rng
+    bv = boundary_values()
+    lines, cases, outs = [], [], []
+    first_prog = None
+    for _ in range(n):
+        prog, (start, stop, step), desc, request = for_operand_program(rng, bv)
+        first_prog = first_prog or prog
+        impl_out, status = run_for_program(s, prog)
+        cases.append(('forvar', desc, start, stop, step))
+        outs.append(impl_out)
+        # the model gets the operands, the variable store and the body's assignments, and reads the operands itself
+        lines.append(request)
+        ctx.case(('forvar', prog))
+        ctx.count('basic:forvar')
+        ctx.count('forvar:' + (status or 'none').split()[0])
+        for f in desc.split(':')[0].split(','):
+            ctx.count('forvar-operand:' + f)
+        exp_out = for_expected(start, stop, step, FOR_FUEL)
+        if impl_out != exp_out:
+            ctx.fail('forvar:%s:%d:%d:%d' % (desc, start, stop, step),
+                     {'forprog': prog.decode('latin-1'), 'for': [start, stop, step], 'fuel': FOR_FUEL},
+                     'FOR I%%=%d TO %d STEP %d given as %s and reassigned inside the loop: got %s, expected %s; '
+                     'program %r' % (start, stop, step, desc, impl_out, exp_out, prog))
+        if status == 'hang':
+            break
+    ctx.compare(cases, outs, lines, label='forvar')
+    if cases:
+        ctx.sample({'forvar': cases[0], 'program': first_prog.decode('latin-1'), 'impl': outs[0]})
+
+
+def basic_level(ctx, n_expr, n_for, n_forvar):
     """The same operators through the real parser/evaluator, plus integer FOR counters."""
     rng = ctx.rng
     bv = boundary_values()
@@ -230,64 +426,21 @@ def basic_level(ctx, n_expr, n_for):
                 start, stop, step = (s16(rng.choice(bv)) for _ in range(3))
             prog = (b'10 K%%=0:FOR I%%=%d TO %d STEP %d\r20 PRINT I%%;:K%%=K%%+1:IF K%%>=%d THEN PRINT " fuel":END\r'
                     b'30 NEXT\r40 PRINT "end ";I%%\r' % (start, stop, step, fuel))
-            s.execute(b'NEW')
-            for l in prog.split(b'\r'):
-                if l:
-                    s.execute(l)
-            out = s.execute(b'RUN')
-            toks = out.replace(b'\xff', b' ').split()
-            vals, status = [], None
-            for i, t in enumerate(toks):
-                if t == b'fuel':
-                    status = 'fuel'
-                    break
-                if t == b'end':
-                    status = 'end %d' % (int(toks[i + 1]) & 0xffff)
-                    break
-                if t == b'Overflow':
-                    status = 'err 6'
-                    break
-                try:
-                    vals.append(int(t) & 0xffff)
-                except ValueError:
-                    status = 'unparsed %r' % out
-                    break
-            impl_out = 'ok %s %s' % (','.join(map(str, vals)) or '-', status)
+            impl_out, status = run_for_program(s, prog)
             cases.append(('for', start, stop, step))
             outs.append(impl_out)
             lines.append('for %d %d %d %d' % (fuel, start & 0xffff, stop & 0xffff, step & 0xffff))
             ctx.case(('for', start, stop, step))
             ctx.count('basic:for')
             ctx.count('for:' + (status or 'none').split()[0])
-            # oracle: exact addition, Overflow exactly when leaving the range
-            exp_vals, c = [], start
-            empty = (start > stop) if step >= 0 else (stop > start)
-            exp_status = None
-            first = True
-            while True:
-                if not (empty and first):
-                    if len(exp_vals) >= fuel:
-                        exp_status = 'fuel'
-                        break
-                    exp_vals.append(c & 0xffff)
-                    if len(exp_vals) >= fuel:
-                        exp_status = 'fuel'
-                        break
-                first = False
-                c += step
-                if not -32768 <= c <= 32767:
-                    exp_status = 'err 6'
-                    break
-                if (c > stop) if step > 0 else (stop > c):
-                    exp_status = 'end %d' % (c & 0xffff)
-                    break
-            exp_out = 'ok %s %s' % (','.join(map(str, exp_vals)) or '-', exp_status)
+            exp_out = for_expected(start, stop, step, fuel)
             if impl_out != exp_out:
                 ctx.fail('for:%d:%d:%d' % (start, stop, step), {'for': [start, stop, step], 'fuel': fuel},
                          'FOR I%%=%d TO %d STEP %d: got %s, expected %s' % (start, stop, step, impl_out, exp_out))
         ctx.compare(cases, outs, lines, label='for')
         if cases:
             ctx.sample({'for': cases[0], 'impl': outs[0]})
+        for_operands(ctx, s, n_forvar)
 
 
 def run(ctx):
@@ -316,7 +469,7 @@ def run(ctx):
         check_cases(ctx, impl, cases[i:i + 200000])
     ctx.sample({'op': cases[0][0], 'a': cases[0][1], 'b': cases[0][2], 'impl': impl.call(*cases[0])})
     ctx.sample({'op': 'imod', 'a': 65529, 'b': 2, 'impl': impl.call('imod', 65529, 2)})
-    basic_level(ctx, 600 if ctx.quick else 20000, 150 if ctx.quick else 3000)
+    basic_level(ctx, 600 if ctx.quick else 20000, 150 if ctx.quick else 3000, 180 if ctx.quick else 3000)
 
 
 def replay(ctx, payload):
@@ -325,6 +478,12 @@ def replay(ctx, payload):
     sub = Ctx2(ctx)
     if 'op' in case and case.get('level') == 'values':
         check_cases(sub, impl, [(case['op'], case['a'], case['b'])])
+    elif 'forprog' in case:
+        # the recorded program itself
+        with basic.new_session() as s:
+            got, _ = run_for_program(s, case['forprog'].encode('latin-1'))
+        exp = for_expected(*(case['for'] + [case['fuel']]))
+        return None if got == exp else 'got %s, expected %s' % (got, exp)
     else:
         # re-run the BASIC-level part deterministically with the recorded seed
         import random
